@@ -64,14 +64,23 @@ def _meta(spec):
     return meta, vis
 
 
+def op_andnot(a, b):
+    """A caller-supplied, non-commutative compound operator: the set difference a \\ b."""
+    return np.logical_and(a, np.logical_not(b))
+
+
+def compound_operator(name):
+    import operator
+    return {'and': operator.and_, 'or': operator.or_, 'xor': operator.xor, 'andnot': op_andnot}[name]
+
+
 def build(spec):
     """Build the real regions object for a spec."""
     import regions as R
     from regions import PixCoord
     cls = spec['cls']
     if cls == 'compound':
-        import operator
-        op = {'and': operator.and_, 'or': operator.or_, 'xor': operator.xor}[spec['op']]
+        op = compound_operator(spec['op'])
         r1, r2 = build(spec['r1']), build(spec['r2'])
         kw = {}
         if spec.get('include', 'inherit') != 'inherit':
@@ -235,7 +244,7 @@ class Ref:
         if c == 'compound':
             i1, s1 = self.r1.member_flagged(x, y)
             i2, s2 = self.r2.member_flagged(x, y)
-            op = {'and': np.logical_and, 'or': np.logical_or, 'xor': np.logical_xor}[s['op']]
+            op = {'and': np.logical_and, 'or': np.logical_or, 'xor': np.logical_xor, 'andnot': op_andnot}[s['op']]
             return op(i1, i2), s1 & s2
         if c in ('polygon', 'regpoly'):
             return self._poly(x, y)
